@@ -449,33 +449,72 @@ Definition received_by (x : nat) (rs : list recv) : list nat :=
 Definition kind_of (ps : list pobs) (p : nat) : kind :=
   match nth_error ps p with Some o => o_kind o | None => Honest end.
 
+Definition check_peer (g : cfg) (rs : list recv) (k : nat) (o : pobs) : bool :=
+  if is_honest_k (o_kind o) then
+    let got := received_by k rs in
+    (* monotone: a verified piece is verified once, is never lost, nothing appears unverified *)
+    nodupb (o_have0 o ++ got) && set_eqb (o_bits o) (o_have0 o ++ got)
+    && forallb (fun i => Nat.ltb i (npieces g)) (o_bits o)
+    (* safety: success => every piece verified, the blob is in the cache, byte for byte *)
+    && match o_result o with
+       | RkOk => subset (seq 0 (npieces g)) (o_bits o) && o_cached o
+                 && list_eqb peqb (o_content o) (g_blob g)
+       | _ => true
+       end
+    (* whatever the result: a cached file is the blob *)
+    && (if o_cached o then list_eqb peqb (o_content o) (g_blob g) else true)
+  else true.
+
 Fixpoint check_peers (g : cfg) (rs : list recv) (k : nat) (ps : list pobs) : bool :=
   match ps with
   | [] => true
-  | o :: t =>
-      (if is_honest_k (o_kind o) then
-         let got := received_by k rs in
-         (* monotone: a verified piece is verified once, is never lost, nothing appears unverified *)
-         nodupb (o_have0 o ++ got) && set_eqb (o_bits o) (o_have0 o ++ got)
-         && forallb (fun i => Nat.ltb i (npieces g)) (o_bits o)
-         (* safety: success => every piece verified, the blob is in the cache, byte for byte *)
-         && match o_result o with
-            | RkOk => subset (seq 0 (npieces g)) (o_bits o) && o_cached o
-                      && list_eqb peqb (o_content o) (g_blob g)
-            | _ => true
-            end
-         (* whatever the result: a cached file is the blob *)
-         && (if o_cached o then list_eqb peqb (o_content o) (g_blob g) else true)
-       else true) && check_peers g rs (S k) t
+  | o :: t => check_peer g rs k o && check_peers g rs (S k) t
   end.
 
 (* The property on one observed run, as the statement has it (no escape for checksum collisions:
    the theorems carry that hypothesis, cf / cf_list; a run in which the checksum collides on a
-   payload a corrupting peer sent can violate this oracle, see C19_collision_refuted). *)
-Definition C19_check (g : cfg) (rs : list recv) (ps : list pobs) : bool :=
+   payload a corrupting peer sent can violate this oracle, see C19_collision_refuted).
+   `bad` = the payloads corrupting peers sent; if none of them is a piece of the blob, no piece may
+   have been accepted from a corrupting peer. *)
+Definition C19_check (g : cfg) (bad : list P) (rs : list recv) (ps : list pobs) : bool :=
   check_peers g rs 0 ps
-  (* a piece is never accepted from a corrupting peer *)
-  && forallb (fun r => is_honest_k (kind_of ps (snd (fst r)))) rs.
+  && (if forallb (fun b => negb (existsb (peqb b) (g_blob g))) bad
+      then forallb (fun r => is_honest_k (kind_of ps (snd (fst r)))) rs else true).
+
+(* ---- the observations of a model run, for the soundness statement of the oracle *)
+(* what a label adds to the receive_piece log: a write that ends with the piece verified *)
+Definition recv_of (g : cfg) (s : state) (l : label) : list recv :=
+  match l with
+  | RecvEnd a i =>
+      let x := peers s a in
+      if p_up x && is_dirty (p_st x i) then
+        match take_first (fun w => Nat.eqb (w_piece w) i) (p_wr x) with
+        | Some (w, _) => if sum_ok g i (w_data w) then [(a, w_from w, i)] else []
+        | None => []
+        end
+      else []
+  | _ => []
+  end.
+Fixpoint run_log (g : cfg) (s : state) (ls : list label) : list recv :=
+  match ls with
+  | [] => []
+  | l :: t => recv_of g s l ++ run_log g (exec g s l) t
+  end.
+Definition observe_peer (g : cfg) (s : state) (k : nat) (e : kind * bool * list nat) : pobs :=
+  let x := peers s k in
+  mkpobs (fst (fst e))
+         (filter (fun i => memb i (snd e)) (seq 0 (npieces g)))
+         (if p_committed x then RkOk else RkPending)
+         (filter (fun i => is_complete (p_st x i)) (seq 0 (npieces g)))
+         (p_committed x)
+         (flat_map (fun i => match p_dat x i with Some b => [b] | None => [] end) (seq 0 (npieces g))).
+Fixpoint observe_from (g : cfg) (s : state) (k : nat) (ps : list (kind * bool * list nat)) : list pobs :=
+  match ps with
+  | [] => []
+  | e :: t => observe_peer g s k e :: observe_from g s (S k) t
+  end.
+Definition observe (g : cfg) (s : state) (ps : list (kind * bool * list nat)) : list pobs :=
+  observe_from g s 0 ps.
 
 End Swarm.
 
